@@ -1224,14 +1224,19 @@ def run(ctx, rep):
                     rep.violation("misparse:coloured", f"coloured grep line is not read back: {line!r} -> {got}",
                                   dict(kind="line", op="grep.parse_raw", caller="git grep -n foo", line=line, want=want, got=got))
     # ---- 1a. the parse dispatch of handle_grep_line on text lines without escape sequences (GrepInput.lineOfInput, T23):
-    #          a line beginning with `{` goes to the JSON reader only, every other line to the plain regexes in order
+    #          a line beginning with `{` goes to the JSON reader first and — when the source has the repair
+    #          notes/fix-grep-brace-path.diff (the model follows the regenerated flag jsonFailureFallsBackToRegexes) — on its
+    #          `None` to the plain regexes, like every other line. Oracle: a `{` line inside a proved fragment must be read
+    #          back as the record it is (`misparse:plain:fragment-*:plain-path-begins-with-brace`).
     if have_model:
         dl = [c[0] for c in cases if ESC not in c[0] and c[2] in ("plain", "mutated", "random")][:ctx.n(250, 5000)]
+        brace_rec, brace_reported = {}, set()
         for r in recs[:ctx.n(80, 2000)]:
             kind, path, digits, code = r
             if ESC not in path + code:
-                dl.append(fmt_plain(kind, "{" + path, digits, code))
-                dl.append(fmt_plain(kind, "{{cookiecutter.slug}}/" + path, digits, code))
+                for bp in ("{" + path, "{{cookiecutter.slug}}/" + path):
+                    dl.append(fmt_plain(kind, bp, digits, code))
+                    brace_rec[dl[-1]] = (kind, bp, digits, code)
         dl = [l for l in dl if "\n" not in l and not is_json_text(l)]
         di = ctx.hook(extra_env={"DELTA_VERIF_HOOK_CALLER": "git grep -n foo"}).ask([f"grep.parse {hx(l)}" for l in dl])
         dm = mdl.ask([f"grep.line_of_text 4 {hx(l)}" for l in dl])
@@ -1247,6 +1252,19 @@ def run(ctx, rep):
             g = None if got is None else dict(kind=got["kind"], path=got["path"], num=got["num"], code=got["code"])
             rep.count("dispatch:" + ("brace" if l.startswith("{") else "other") + (":hit" if g else ":not-grep"))
             rep.corr_case("line_of_text", g == want, dict(line=l, impl=i, model=m))
+            if l in brace_rec:
+                kind, bp, digits, code = brace_rec[l]
+                fp = fragment(kind, bp, digits, code)
+                if fp != "-":
+                    rep.count("oracle:plain-round-trip:brace-path:" + fp)
+                    rec = dict(gtype="classic", kind=kind, path=bp, num=num_of(digits), code=code, subs=None)
+                    if got != rec:
+                        rep.count("oracle:plain-round-trip:brace-path:not-read-back")
+                    if got != rec and fp not in brace_reported:      # (one replay per fragment: 160 lines fail alike)
+                        brace_reported.add(fp)
+                        rep.violation("misparse:plain:fragment-" + fp + ":plain-path-begins-with-brace",
+                                      f"text grep line inside proved fragment {fp} whose path begins with '{{' is not read back: {l!r} -> {got}",
+                                      dict(kind="line", op="grep.parse", caller="git grep -n foo", line=l, want=rec, got=got))
 
     # ---- 1b. the documented fragment of plain-text lines, systematically: every extension length 1..10 (and 11,
     #          just outside) x with / without line number x match / context / function-header separator, over
@@ -1953,6 +1971,44 @@ def run_probes(ctx, rep):
                       [dict(path="src/a.rs", num=3, kind="context", code="ctx", subs=None), dict(path="src/a.rs", num=4, kind="match", code="fn x", subs=[(0, 2)])], "json")
     st["variant"] = "color-only"
     P.append(("color-only-ripgrep", st, ["ripgrep"]))
+    # (i) plain-text grep output whose path begins with `{` (`{{cookiecutter.slug}}/a.py`, `{arch}/lib/foo.c`): parse_grep_line
+    #     hands a line beginning with `{` to the rg --json reader ONLY, so the hit is printed as it came instead of being
+    #     rendered (repair: notes/fix-grep-brace-path.diff — the regexes are tried when the JSON reader answers None).
+    #     Every line is inside a proved fragment (path with a file extension). The last stream has a hit longer than
+    #     --max-line-length (3000): `{` lines are exempt from truncation (ingest_line_utf8), so it is shown in full.
+    def brace_stream(recs_, guess):
+        return probe_stream([fmt_plain(k_, p_, None if n_ is None else str(n_), c_) for k_, p_, n_, c_ in recs_], guess,
+                            [dict(path=p_, num=n_, kind=k_, code=c_, subs=None) for k_, p_, n_, c_ in recs_])
+    BR = "plain-path-begins-with-brace"
+    P.append((BR, brace_stream([("match", "{{cookiecutter.slug}}/a.py", 1, "x")], "git grep -n x"), ["classic", "ripgrep"]))
+    P.append((BR, brace_stream([("context", "{arch}/lib/foo.c", 12, "ctx"), ("match", "{arch}/lib/foo.c", 13, "\thit(foo);"),
+                                ("match", "src/a.rs", 3, "foo")], "git grep -n -C1 foo"), ["classic", "ripgrep"]))
+    P.append((BR, brace_stream([("match", "src/a.rs", None, "foo"), ("match", "{{cookiecutter.project_slug}}/setup.py", None, "import foo"),
+                                ("match", "{{cookiecutter.project_slug}}/setup.py", None, "foo()")], "git grep foo"), ["classic", "ripgrep"]))
+    for _ in range(ctx.n(6, 120)):
+        rs_ = []
+        numbered = rng.random() < 0.6
+        for _p in range(rng.randint(1, 3)):
+            for _try in range(40):
+                bp = rng.choice(["{", "{{cookiecutter.slug}}/", "{arch}/"]) + gen_path(rng)
+                if fragment("context", bp, "5" if numbered else None, "x") != "-":
+                    break
+            else:
+                continue
+            n_ = rng.randint(1, 400)
+            for _h in range(rng.randint(1, 3)):
+                kind = rng.choice(["match", "match", "context"])
+                for _try in range(20):
+                    code = gen_code(rng, 4)
+                    if "\n" not in code and "\r" not in code and ESC not in code and fragment(kind, bp, str(n_) if numbered else None, code) != "-":
+                        rs_.append((kind, bp, n_ if numbered else None, code))
+                        n_ += 1
+                        break
+        rs_ = [r_ for r_ in rs_ if not is_json_text(fmt_plain(r_[0], r_[1], None if r_[2] is None else str(r_[2]), r_[3]))]
+        if rs_:
+            P.append((BR, brace_stream(rs_, "git grep" + (" -n" if numbered else "") + " -C1 foo"), ["classic", "ripgrep"]))
+    P.append((BR, brace_stream([("match", "{{cookiecutter.slug}}/min.js", 1, "var t=[" + long_filler(rng, 3200) + "]"),
+                                ("match", "{{cookiecutter.slug}}/min.js", 2, "foo")], "git grep -n foo"), ["classic", "ripgrep"]))
     jobs = [(name, st, style) for name, st, styles in P for style in styles]
     results = parallel_map(lambda j: run_stream(ctx, j[1], j[2], 8, VARIANT_OF[j[1].get("variant", "base")]), jobs)
     for (name, st, style), (rc, out, err, args, data) in zip(jobs, results):
